@@ -28,9 +28,7 @@ MUTANTS = [
     # the deferred close forgets to leave the close queue
     # NOTE: becomes an equivalent mutant once proposed_fixes/C12-closeq-entry-survives-error-close.diff is applied (then _close itself
     # removes the entry); remove it from the list at that point.
-    ('c12-closeq-entry-kept', 'C12', S,
-     "            if sock in self._closeq:\n                self._closeq.remove(sock)\n                self._close(sock)\n            elif self._poller.isWriting(sock):\n                self._poller.removeWriter(sock)\n\n    def _create_socket(self):\n        sock = socket(self.socket_family, self.socket_type, self.socket_protocol)\n\n        for option in self.socket_options:\n            sock.setsockopt(*option)\n        sock.setblocking(False)\n        if self._bind is not None:\n            sock.bind(self._bind)\n        return sock\n\n\nclass TCPServer",
-     "            if sock in self._closeq:\n                self._close(sock)\n            elif self._poller.isWriting(sock):\n                self._poller.removeWriter(sock)\n\n    def _create_socket(self):\n        sock = socket(self.socket_family, self.socket_type, self.socket_protocol)\n\n        for option in self.socket_options:\n            sock.setsockopt(*option)\n        sock.setblocking(False)\n        if self._bind is not None:\n            sock.bind(self._bind)\n        return sock\n\n\nclass TCPServer"),
+    # c12-closeq-entry-kept (_on_write no longer removes the socket from _closeq before _close): equivalent since fix 'closeq entry removed in _close'
     # the disconnect is not announced
     ('c12-disconnect-not-fired', 'C12', S,
      "        with contextlib.suppress(OSError):\n            sock.close()\n\n        self.fire(disconnect(sock))\n\n    @handler('close')\n    def close(self, sock=None):",
